@@ -11,6 +11,15 @@ CHECKS = {
  "C12": dict(level="model_checking", tech="TLA+ spec Parse.tla (token-level transcription of parse_op and tree normal forms); TLC checks totality, space-invariance and print/re-read round trip on every token sequence up to the bound; outcomes recorded from the real parser validated by TLC (Trace_Parse.tla)",
    text="Parse.tla is a total function from token sequences to tree-or-syntax-error, structured like parse_op (dedup spaces, nesting, operator precedence, ellipsis, move-up of '->' and ',', bracket normalisation, consistency checks). TLC enumerates every token sequence up to the length bound and proves on the specification that redundant spaces never change the verdict or tree and that every accepted tree prints back into the notation and re-reads to itself. The real parser is bound to the specification by recording its outcome on every one of those strings (plus random strings over arbitrary characters) and letting TLC compare verdict and tree; other exception classes, messages that do not quote the caller's string, carets outside it and failing real round trips are violations by themselves.",
    note="exhaustive up to 5 (quick) / 6 (thorough) tokens over 2 names, numbers 0/1, one junk token; longer strings by seeded random sampling; the harness lexer that maps random strings to tokens follows parse.py's literal order", ref="5 C12"),
+ "C01": dict(level="model_checking", tech="TLA+ denotation Loop.tla + case space Cases.tla enumerated by TLC (WellDefinedInv on every case); every exported case replayed through the real einx on all numpy backends and compared element-wise with the denotation executed by loopref",
+   text="Loop.tla defines what a description denotes (per loop iteration, the flat positions of every input/output sub-tensor: row-major flattening, block offsets for '+', shared index for repeated names, broadcast for output-only axes) without any reshape/transpose/einsum. TLC enumerates the case space of every operation family under several length assignments (unit axes, equal lengths, distinct lengths), checks that the denotation is a well-defined function onto the output, and exports each case with its table; the real einx must return exactly the values the table prescribes (or OperationNotSupportedError) for every operation of the family on every backend.",
+   note="numpy backends only; numpy elementary functions trusted; expressions enumerated as trees (<=3 dims / <=4 leaves per tensor, <=3 names) and printed into the notation; ellipsis handled by C07", ref="5 C01"),
+ "C08": dict(level="model_checking", tech="TLA+ Equiv.tla: transformations (rename, permute input/output dimensions, group) with TLC-checked equations on the denotation for every case; exported related pairs replayed as pairs of REAL calls on related tensors; inverse and composition laws for rearrangements",
+   text="TLC proves on every enumerated case that the denotation is equivariant under the transformations the property names (C08_Equivariance), and exports each (case, transformed case, data transformation); the real einx is run on both members with transposed/reshaped tensors and the two real results must be related as prescribed; for einx.id the inverse law (also across concatenate/split) and the composition law are replayed as chains of real calls.",
+   note="numpy backends; dimensions containing brackets keep their relative order under permutation; quick tier samples the larger families", ref="5 C08"),
+ "C14": dict(level="model_checking", tech="TLA+ Cases.tla family update_at with invariant C14_ContribPartition checked by TLC on every case; replay of set_at/add_at/subtract_at on all backends under several coordinate assignments (maximal duplication, random) with exact integer accumulation, membership for set_at and get_at read-back",
+   text="The denotation lists per iteration the target slice, the coordinate vector and the update element; TLC checks that iterations partition the update tensor evenly and address slices of the output. The real operations must produce exactly the accumulated contributions (add/subtract), one of the competing values (set) and leave all other cells untouched, for coordinate layouts with the coordinate axis first/last, scattered/flattened bracketed target axes and missing/extra vectorised axes.",
+   note="numpy backends; one coordinate tensor per call in the enumerated corpus; coordinates all-zero / all-max / seeded random rather than all assignments", ref="5 C14"),
 }
 NA_REASON = "check not built yet (work in progress, see DESIGN.md section 9)"
 ids = [json.loads(l)["id"] for l in open("/verif/properties.jsonl")]
